@@ -120,30 +120,38 @@ func c12idsCase(name string, R, r uint64, n int) {
 	}
 }
 
-// names free of what the derivations key on: the property is asserted on these (implementation-side oracle)
-func c12plain(name string) bool {
-	return name != "" && !strings.Contains(name, "(1/1)") && !strings.Contains(name, "As-Is") && !strings.Contains(name, "\n")
+// the predicates of the theorems (Saver.v: no_nl, label_safe): the implementation-side oracle asserts
+// naming on names without line breaks, label uniqueness on names containing neither "(1/1)" nor "As-Is",
+// completeness and faithfulness of the rows on every name
+func c12noNl(name string) bool { return !strings.Contains(name, "\n") }
+func c12labelSafe(name string) bool {
+	return !strings.Contains(name, "(1/1)") && !strings.Contains(name, "As-Is")
 }
+func c12plain(name string) bool { return c12noNl(name) && c12labelSafe(name) }
 
 func c12idsOracle(fam, name string, R, r uint64, n int, keys []c12keyObs) {
-	if !c12plain(name) || R < 1 || r < 1 || r > R {
+	if c12plain(name) {
+		c12stats["ids_inside_predicate"]++
+	} else {
 		c12stats["ids_outside_predicate"]++
-		return
 	}
-	c12stats["ids_inside_predicate"]++
 	bad := ""
 	labels := map[string]bool{}
 	for _, k := range keys {
-		if k.JPanic {
-			bad = "JSON set name panics on key " + strconv.Quote(k.Id)
+		if c12noNl(name) {
+			if k.JPanic {
+				bad = "JSON set name panics on key " + strconv.Quote(k.Id)
+			}
+			if k.Stem != keys[0].Stem || k.SetId != keys[0].SetId || k.JName != keys[0].JName || k.JPanic != keys[0].JPanic {
+				bad = "file stem / set id / JSON set name depend on the chosen key"
+			}
 		}
-		if k.Stem != keys[0].Stem || k.SetId != keys[0].SetId || k.JName != keys[0].JName || k.JPanic != keys[0].JPanic {
-			bad = "file stem / set id / JSON set name depend on the chosen key"
+		if c12labelSafe(name) {
+			if labels[k.Label] {
+				bad = "duplicate row label " + strconv.Quote(k.Label)
+			}
+			labels[k.Label] = true
 		}
-		if labels[k.Label] {
-			bad = "duplicate row label " + strconv.Quote(k.Label)
-		}
-		labels[k.Label] = true
 	}
 	if bad != "" {
 		emit(J{"kind": "oracle", "what": bad, "part": "ids", "fam": fam, "name": name, "R": R, "r": r, "n": n, "keys": keys})
@@ -490,12 +498,9 @@ func c12saveCase(cfg c12config, fx *c12fixture, rng *prng) {
 			fail("summary file unusable: "+o.Problem, o)
 			continue
 		}
-		if !c12plain(cfg.name) {
-			continue
-		}
 		seen := map[string]bool{}
 		for _, row := range o.Rows {
-			if seen[row.Label] {
+			if c12labelSafe(cfg.name) && seen[row.Label] {
 				fail("duplicate row label "+strconv.Quote(row.Label), o)
 				break
 			}
@@ -532,7 +537,7 @@ func runC12(args []string) {
 	// ---- part 1 ----
 	extra := 15
 	if tier == "thorough" {
-		extra = 400
+		extra = 150
 	}
 	names := c12namePalette(rng, extra)
 	type rr struct{ R, r uint64 }
@@ -549,7 +554,7 @@ func runC12(args []string) {
 	for _, name := range names {
 		for _, c := range combos {
 			for _, n := range []int{0, 1, 2, 11} {
-				if tier != "thorough" && n == 11 && !(c.R == 1 || c.r == 12) {
+				if n == 11 && !(c.r == 1 || c.r == c.R) && !(tier == "thorough" && c.R == 3) {
 					continue
 				}
 				c12idsCase(name, c.R, c.r, n)
